@@ -348,6 +348,8 @@ def find_api_functions(ctx: Ctx) -> Tuple[Func, Func]:
         raise AnchorError("role top-level-evaluation (user call + context set in dds._api) not found")
     if nested is None:
         raise AnchorError("role nested-evaluation (user call without context set in dds._api) not found")
+    ctx.report.roles[top.qname] = "role:top-level-evaluation"
+    ctx.report.roles[nested.qname] = "role:nested-evaluation"
     return top, nested
 
 
